@@ -12,6 +12,7 @@ import ast
 import builtins as _bi
 import inspect
 import textwrap
+import time
 import types
 import z3
 
@@ -177,6 +178,7 @@ class ClassTable:
         self.by_id = {}
         self.cls_of = z3.Function('cls_of', z3.IntSort(), z3.IntSort())
         self.Sub = z3.Function('Sub', z3.IntSort(), z3.IntSort(), z3.BoolSort())
+        self.open_bases = set()     # classes that generated (symbolic) classes may extend
 
     def cid(self, cls):
         if cls not in self.ids:
@@ -195,7 +197,8 @@ class ClassTable:
         subs = [k for k in self.known() if isinstance(k, type) and issubclass(k, cls)]
         c = self.cls_of(oid_term)
         alts = [c == self.cid(k) for k in subs]
-        alts.append(z3.And(c > SYM_CLASS_BASE, self.Sub(c, z3.IntVal(self.cid(cls)))))
+        if cls is object or any(issubclass(b, cls) or issubclass(cls, b) for b in self.open_bases):
+            alts.append(z3.And(c > SYM_CLASS_BASE, self.Sub(c, z3.IntVal(self.cid(cls)))))
         return z3.Or(*alts)
 
 
@@ -290,6 +293,7 @@ class Path:
         self.nalloc = 0
         self.fresh_n = 0
         self.obligs = []
+        self.qdefs = []          # definitions of the Bools that abstract quantified formulas
         self.trace = []          # ghost effect trace (fs effects, emitted segments)
         self.ghost = {}
 
@@ -357,6 +361,14 @@ class Path:
         k = self.choose([cs, z3.Not(cs)], [label + ':T', label + ':F'])
         return k == 0
 
+    def quant(self, q):
+        """Abstract a quantified formula by a fresh Bool: the feasibility
+        solver only sees the Bool, ``prove`` adds its definition."""
+        self.fresh_n += 1
+        b = z3.Bool('q!%d' % self.fresh_n)
+        self.qdefs.append(b == q)
+        return b
+
     def fresh(self, name, sort=None):
         self.fresh_n += 1
         return z3.Const('%s!%d' % (name, self.fresh_n), sort if sort is not None else Val)
@@ -380,6 +392,8 @@ class Engine:
     """Symbolic interpreter + path explorer."""
 
     MAX_PATHS = 4000
+    INLINE_PACKAGES = ('stone', 'spec', 'contracts', 'pyvc')
+    TIME_BUDGET = 300
     MAX_DEPTH = 14
 
     def __init__(self, seed=0):
@@ -457,14 +471,38 @@ class Engine:
         return Engine._objids[k][0]
 
     # ---------------------------------------------------------- truthiness
+    def strlen(self, s):
+        n = vals.strlen(s)
+        if self.path is not None:
+            key = ('strlen', s.get_id())
+            if key not in self.path.ghost:
+                self.path.ghost[key] = s
+                for ax in vals.strlen_axioms(s):
+                    self.scoped_assume(ax)
+        return n
+
     def truthy_term(self, t):
         V = Val
+        if self.must(V.is_VStr(t)):
+            return self.strlen(V.s(t)) > 0
+        if self.must(V.is_VNone(t)):
+            return z3.BoolVal(False)
+        if self.must(V.is_VObj(t)) or self.must(V.is_VOther(t)):
+            return z3.BoolVal(True)
+        if self.must(V.is_VInt(t)):
+            return V.i(t) != 0
+        if self.must(z3.Or(V.is_VNone(t), V.is_VStr(t))):
+            return z3.And(V.is_VStr(t), self.strlen(V.s(t)) > 0)
+        if self.must(z3.Or(V.is_VNone(t), V.is_VInt(t))):
+            return z3.And(V.is_VInt(t), V.i(t) != 0)
+        if self.must(z3.Or(V.is_VNone(t), V.is_VOther(t), V.is_VObj(t))):
+            return z3.Not(V.is_VNone(t))
         return z3.If(V.is_VNone(t), False,
                z3.If(V.is_VBool(t), V.b(t),
                z3.If(V.is_VInt(t), V.i(t) != 0,
                z3.If(V.is_VFloat(t), z3.Not(z3.fpIsZero(V.f(t))),
-               z3.If(V.is_VStr(t), z3.Length(V.s(t)) > 0,
-               z3.If(V.is_VBytes(t), z3.Length(V.bs(t)) > 0,
+               z3.If(V.is_VStr(t), self.strlen(V.s(t)) > 0,
+               z3.If(V.is_VBytes(t), self.strlen(V.bs(t)) > 0,
                z3.If(V.is_VList(t), V.llen(t) > 0,
                z3.If(V.is_VTuple(t), V.tlen(t) > 0,
                z3.If(V.is_VDict(t), V.dn(t) > 0,
@@ -545,8 +583,10 @@ class Engine:
             self.raise_(exc_cls, 'implicit:' + label)
         if self.merge:
             # in merge mode failure conditions are collected, not forked
-            if self.fail_conds is not None:
+            if self.fail_conds is not None and not self.must(z3.Not(cond)):
                 self.fail_conds.append((cond, exc_cls, label))
+            return
+        if self.must(z3.Not(cond)):
             return
         if self.path.branch(cond, 'fail:' + label):
             self.raise_(exc_cls, 'implicit:' + label)
@@ -558,9 +598,12 @@ class Engine:
         ('raise', SExc)."""
         self.pending = [[]]
         npaths = 0
+        t_start = time.time()
         while self.pending:
             prefix = self.pending.pop()
             npaths += 1
+            if time.time() - t_start > self.TIME_BUDGET:
+                raise Unsupported('time budget of %ds exceeded after %d paths' % (self.TIME_BUDGET, npaths))
             if npaths > self.MAX_PATHS:
                 raise Unsupported('more than %d paths' % self.MAX_PATHS)
             p = Path(self, prefix)
@@ -589,6 +632,9 @@ class Engine:
             return self.instantiate(fn, args, kwargs)
         if not isinstance(fn, types.FunctionType):
             raise Unsupported('call of %r' % (fn,))
+        mod = getattr(fn, '__module__', '') or ''
+        if not (mod.split('.')[0] in self.INLINE_PACKAGES):
+            raise Unsupported('no model for %s.%s' % (mod, fn.__qualname__))
         if self.merge:
             return self._spec_call(fn, args, kwargs)
         return self.inline(fn, args, kwargs, recv_defcls)
@@ -1000,6 +1046,8 @@ class Engine:
                     v = sorted(v, key=repr)
                 return [C(x) for x in v]
             self.unsupported(node, 'iteration over %r' % (v,))
+        if isinstance(it, (SItems, SQuant)):
+            return None
         if isinstance(it, T):
             t = z3.simplify(it.t)
             # list / tuple with concrete length
@@ -1718,6 +1766,28 @@ def _spec_call(self, fn, args, kwargs):
         self.depth -= 1
 
 
+def _mentions_binder(terms, nb):
+    """Does any term mention a comprehension index constant ci<k>?"""
+    if nb == 0:
+        return False
+    names = set('ci%d' % k for k in range(nb))
+    seen = set()
+    stack = list(terms)
+    while stack:
+        t = stack.pop()
+        k = t.get_id()
+        if k in seen:
+            continue
+        seen.add(k)
+        if z3.is_const(t) and t.decl().kind() == z3.Z3_OP_UNINTERPRETED and t.decl().name() in names:
+            return True
+        if z3.is_app(t):
+            stack.extend(t.children())
+        elif z3.is_quantifier(t):
+            stack.append(t.body())
+    return False
+
+
 def _spec_uf(self, fn, args, kwargs):
     if kwargs:
         raise Unsupported('keyword arguments to recursive spec function')
@@ -1742,7 +1812,7 @@ def _spec_uf(self, fn, args, kwargs):
         app = f(*allargs)
         res = T(app)
     key = (fn.__name__,) + tuple(t.get_id() for t in allargs)
-    if self.binders == 0 and self.unfold_depth < getattr(fn, '_unfold', 1):
+    if not _mentions_binder(allargs, self.binders) and self.unfold_depth < getattr(fn, '_unfold', 1):
         if self.unfolded is None:
             self.unfolded = {}
         if key not in self.path.ghost.setdefault('unfolded', {}):
@@ -1773,3 +1843,166 @@ Engine._spec_block = _spec_block
 Engine._spec_inline = _spec_inline
 Engine._spec_call = _spec_call
 Engine._spec_uf = _spec_uf
+
+
+# ============================================================================
+# comprehension summaries over symbolic sequences
+
+
+def _elem_source(self, it, node):
+    """(n, elem(i) -> SV or tuple of SVs) for a symbolic iteration source."""
+    V = Val
+    if isinstance(it, SItems):
+        t = it.t
+        n = V.dn(t)
+        if it.what == 'items':
+            def elem(i):
+                k = z3.Select(V.dk(t), i)
+                return STuple([T(k), T(z3.Select(V.dm(t), vals.KeyId(k)))])
+        elif it.what == 'keys':
+            def elem(i):
+                return T(z3.Select(V.dk(t), i))
+        else:
+            def elem(i):
+                return T(z3.Select(V.dm(t), vals.KeyId(z3.Select(V.dk(t), i))))
+        return n, elem
+    if isinstance(it, T):
+        t = it.t
+        isl, ist, isd = V.is_VList(t), V.is_VTuple(t), V.is_VDict(t)
+        if self.must(isl):
+            return V.llen(t), (lambda i: T(z3.Select(V.larr(t), i)))
+        if self.must(ist):
+            return V.tlen(t), (lambda i: T(z3.Select(V.tarr(t), i)))
+        if self.must(isd):
+            return V.dn(t), (lambda i: T(z3.Select(V.dk(t), i)))
+        if self.must(z3.Or(isl, ist)):
+            n = z3.If(isl, V.llen(t), V.tlen(t))
+            arr = z3.If(isl, V.larr(t), V.tarr(t))
+            return n, (lambda i: T(z3.Select(arr, i)))
+        if not self.merge:
+            ok = z3.Or(isl, ist, isd)
+            self.fail_if(z3.Not(ok), TypeError, 'not iterable')
+            k = self.path.choose([isl, ist, isd], ['list', 'tuple', 'dict'])
+            return self._elem_source(it, node)
+    raise Unsupported('iteration source %r' % (it,))
+
+
+class SItems(SV):
+    """dict.items()/keys()/values() view of a symbolic dict."""
+    __slots__ = ('t', 'what')
+
+    def __init__(self, t, what):
+        self.t = t
+        self.what = what
+
+
+class SQuant(SV):
+    """Generator over a symbolic source: element condition as a function of
+    the index (consumed by any()/all())."""
+    __slots__ = ('i', 'n', 'body', 'fails')
+
+    def __init__(self, i, n, body, fails):
+        self.i = i
+        self.n = n
+        self.body = body
+        self.fails = fails
+
+
+def _symbolic_comprehension(self, node, it, fr, kind):
+    g = node.generators[0]
+    if g.ifs:
+        raise Unsupported('filter in a comprehension over a symbolic sequence (line %s)' % node.lineno)
+    n, elem = self._elem_source(it, node)
+    i = z3.Int('ci%d' % self.binders)
+    sub = Frame(None, {}, fr.globals, fr, fr.defcls, '<comp>')
+    sub.filename = fr.filename
+    rng = z3.And(i >= 0, i < n)
+    old_f, old_p = self.fail_conds, getattr(self, 'pre_conds', None)
+    self.fail_conds, self.pre_conds = [], []
+    self.merge += 1
+    self.binders += 1
+    try:
+        with self.assuming(rng):
+            self.assign(g.target, elem(i), sub)
+            if kind == 'dict':
+                kt = self.lift(self.eval(node.key, sub))
+                vt = self.lift(self.eval(node.value, sub))
+            else:
+                ev = self.eval(node.elt, sub)
+                et = self.lift(ev) if kind != 'gen' else ev
+    finally:
+        self.binders -= 1
+        self.merge -= 1
+        fails, pres = self.fail_conds, self.pre_conds
+        self.fail_conds, self.pre_conds = old_f, old_p
+    # preconditions of calls made per element
+    if pres:
+        goal = self.path.quant(z3.ForAll([i], z3.Implies(rng, z3.And(*pres))))
+        self.require(goal, 'pre(elementwise)@%s' % node.lineno)
+    if kind == 'gen':
+        return SQuant(i, n, ev, fails)
+    if fails:
+        if self.merge:
+            # nested inside another summary: propagate a quantified failure condition
+            classes = set(k for (_, k, _) in fails)
+            if len(classes) != 1:
+                raise Unsupported('element computation may raise different exception classes')
+            anyf = self.path.quant(z3.Exists([i], z3.And(rng, z3.Or(*[c for (c, _, _) in fails]))))
+            if self.fail_conds is not None:
+                self.fail_conds.append((anyf, list(classes)[0], 'comprehension element'))
+        else:
+            classes = []
+            for (_, k, _) in fails:
+                if k not in classes:
+                    classes.append(k)
+            anyf = self.path.quant(z3.Exists([i], z3.And(rng, z3.Or(*[c for (c, _, _) in fails]))))
+            if self.path.branch(anyf, 'comp-elem-raises@%s' % node.lineno):
+                if len(classes) == 1:
+                    self.raise_(classes[0], 'comprehension element')
+                # first failing element decides the class
+                j = self.path.fresh('firstfail', z3.IntSort())
+                anyc = z3.Or(*[c for (c, _, _) in fails])
+                self.path.assume(z3.And(j >= 0, j < n, z3.substitute(anyc, (i, j)),
+                                        self.path.quant(z3.ForAll([i], z3.Implies(z3.And(i >= 0, i < j), z3.Not(anyc))))))
+                conds = []
+                for k in classes:
+                    ck = z3.Or(*[c for (c, kk, _) in fails if kk is k])
+                    conds.append(z3.substitute(ck, (i, j)))
+                # evaluation order inside the element: earlier listed failure wins
+                excl = []
+                acc = z3.BoolVal(False)
+                for c in conds:
+                    excl.append(z3.And(c, z3.Not(acc)))
+                    acc = z3.Or(acc, c)
+                kx = self.path.choose(excl, ['raises:' + k.__name__ for k in classes])
+                self.raise_(classes[kx], 'comprehension element')
+    if kind == 'list':
+        arr = z3.Lambda([i], z3.If(z3.simplify(rng), z3.simplify(et), Val.VAbsent))
+        return T(Val.VList(z3.simplify(n), arr))
+    if kind == 'dict':
+        # the comprehension's value is named after the text of its defining
+        # terms: identical comprehensions (code and specification) denote the
+        # same constant; nothing else is known about it but its kind
+        import hashlib
+        n, kt, vt = z3.simplify(n), z3.simplify(kt), z3.simplify(vt)
+        text = '%s|%s|%s' % (n.sexpr(), kt.sexpr(), vt.sexpr())
+        r = z3.Const('DictComp_' + hashlib.sha1(text.encode()).hexdigest()[:16], Val)
+        self.scoped_assume(Val.is_VDict(r))
+        self.path.ghost.setdefault('dictcomps', {})[r.decl().name()] = (n, i, kt, vt)
+        return T(r)
+    raise Unsupported('%s comprehension over a symbolic sequence' % kind)
+
+
+def _require(self, goal, name):
+    """Proof obligation raised in the middle of a path (call-site
+    precondition, loop invariant)."""
+    hook = getattr(self, 'on_require', None)
+    if hook is None:
+        raise Unsupported('obligation %s outside a verification run' % name)
+    hook(goal, name)
+    self.path.assume(goal)
+
+
+Engine._elem_source = _elem_source
+Engine.symbolic_comprehension = _symbolic_comprehension
+Engine.require = _require
